@@ -372,7 +372,13 @@ func genFont(t *rapid.T) *fontCase {
 	fc.fm = matrix.Matrix{q, 0, 0, q, 0, 0}
 	nfd := 1
 	if fc.kind != "glyf" {
-		switch rapid.IntRange(0, 5).Draw(t, "fmClass") {
+		switch rapid.IntRange(0, 7).Draw(t, "fmClass") {
+		case 6: // slightly rotated
+			fc.fm[1] = q * 0.1
+		case 7: // rotated and sheared: GlyphWidthPDF applies a correction term
+			// that WidthsPDF does not have; that pair is not compared then
+			fc.fm[1] = q * 0.1
+			fc.fm[2] = q * 0.2
 		case 0: // oblique: sheared
 			fc.fm[2] = q * rapid.SampledFrom([]float64{0.2, -0.2, 0.5}).Draw(t, "shear")
 		case 1: // anisotropic
@@ -951,6 +957,13 @@ func checkWritten(t fataler, fc *fontCase, data []byte, boxes []box4, fontBox bo
 	// maxp, head
 	if got := int(u16(maxpT, 4)); got != n {
 		fail("maxp.numGlyphs = %d, want %d", got, n)
+	}
+	if o, ok := f.Outlines.(*glyf.Outlines); ok {
+		if len(maxpT) != 32 || u32(maxpT, 0) != 0x00010000 || u16(maxpT, 6) != o.Maxp.MaxPoints || u16(maxpT, 8) != o.Maxp.MaxContours || u16(maxpT, 14) != o.Maxp.MaxZones {
+			fail("maxp % x does not carry the TrueType maxima %+v", maxpT, *o.Maxp)
+		}
+	} else if len(maxpT) != 6 || u32(maxpT, 0) != 0x00005000 {
+		fail("maxp % x: want version 0.5 for CFF outlines", maxpT)
 	}
 	if got := u16(head, 18); got != fc.upem {
 		fail("head.unitsPerEm = %d, want %d", got, fc.upem)
